@@ -737,9 +737,17 @@ pub fn main(args: &[String]) {
                 for defs in ["g2 : type = A", "g1 : type = int; g2 : type = A", "g2 : type = A; g1 : type = int", "g2 : type = A; g4 : type = g2"] {
                     for b in ["(z : g2) => z", "((z : g2) => z) v", "(p : int) => ((z : g2) => z) v", "((z : g2) => (w : g2) => z) v"] {
                         small.push(format!("{outer}({defs}; {b})"));
+                        // applied directly (no name, so no placeholder for the name's type: usable as a host for rewrites)
+                        small.push(format!("({outer}({defs}; {b})) {}", if outer.starts_with("(B") { "bool int 3" } else if outer.contains("B :") { "int bool 3" } else { "int 3" }));
                         small.push(format!("pick = {outer}({defs}; {b})\n{}", if outer.starts_with("(B") { "pick bool int 3" } else if outer.contains("B :") { "pick int bool 3" } else { "pick int 3" }));
                         small.push(format!("pick = {outer}({defs}; {b})\n{}", if outer.starts_with("(B") { "pick int bool true" } else if outer.contains("B :") { "pick bool int true" } else { "pick bool true" }));
                     }
+                }
+            }
+            for (tyvars, args) in [("(A : type) => (B : type) => ", "bool int"), ("(B : type) => (A : type) => ", "int bool")] {
+                for defs in ["g2 : type = B", "g1 : type = int; g2 : type = B", "g2 : type = B; g1 : type = int", "g2 : type = B; g4 : type = g2"] {
+                    small.push(format!("({tyvars}({defs}; (z : g2) => z)) {args} 3 + 1"));
+                    small.push(format!("({tyvars}({defs}; (z : g2) => (w : g2) => z + w)) {args} 3 4"));
                 }
             }
             if kind == "nestpick" { all.clear(); }
